@@ -370,6 +370,12 @@ func stripTsig(msg []byte) ([]byte, *TSIG, error) {
 			return nil, nil, err
 		}
 		if extra.Header().Rrtype == TypeTSIG {
+			// The TSIG is the last record of the additional section and there is
+			// only one (RFC 8945, section 5.2): what follows a TSIG would not be
+			// covered by its MAC, and Msg.IsTsig looks at the last record.
+			if i != int(dh.Arcount)-1 {
+				return nil, nil, &Error{err: "tsig is not the last additional record"}
+			}
 			rr = extra.(*TSIG)
 			// Adjust Arcount.
 			arcount := binary.BigEndian.Uint16(msg[10:])
